@@ -42,6 +42,8 @@ CFG = {
         # hmono discharged (reviewer W1): versions only grow under every repository call / use case / USys run
         "Swat4.C13.exec_keeps_row",
         "Swat4.C13.usecases_callbacks_stable",
+        "Swat4.C13.usecases_callbacks_stable_more",
+        "Swat4.C13.usecases_more_key_preserving",
         "Swat4.VerMono.exec_rowLe",
         "Swat4.VerMono.run_mono",
         "Swat4.VerMono.usys_run_mono",
@@ -144,7 +146,7 @@ CFG = {
                 "remove + re-add the stale copy overwrites the fresh registration (model and servers.go alike). Tied to probeserver.go and the probers by the "
                 "exhaustive table run on the real probers and by call-granularity interleavings of the real use case with one concurrent commit. "
                 "Round 6: the version premise `hmono` is now a theorem (VerMono.exec_rowLe / VerMono.run_mono; exec_version_mono and prog_version_mono are their per-address restatements, supporting; for every repository call whose conflict callback leaves address and "
-                "version alone; usecases_callbacks_stable: every use case), the race theorems are restated without it for an arbitrary concurrent call "
+                "version alone; usecases_callbacks_stable: the eleven use-case programs listed by hand - report, renew, probe, addServer, refresh, revive, cleanInstances, listServers ProgStable; remove, cleanServers, cleanServers2 with stable callbacks but removing -; usecases_callbacks_stable_more: the two client programs that list left out, Heartbeat6.renewIP [dg6 keepalive] and the prober runner UC.proberRunWith / UC.proberRun [pop client], both ProgStable; usecases_more_key_preserving: hence KeyPreserving - the C09 hypothesis - for those two), the race theorems are restated without it for an arbitrary concurrent call "
                 "(probe_*_race_any, including Remove), for an arbitrary activity of the others at every placement between the probe's calls "
                 "(probe_retry_race_at k=1..3, probe_success_race_at k=1..2, probe_failure_race_others; hypothesis `Others F`: F keeps Keyed and every row unchanged-or-newer, discharged for calls, whole use cases and USys interleavings without Remove), "
                 "and bridged to the system model the driver replays (usys_probe_retry_any, usys_two_clients_* [usys_retry_bridge: supporting glue]: equal to raceRun ... 2 ... always, to the raceRun ... 1 ... "
